@@ -66,6 +66,23 @@ def run(ctx):
     it = [c for c in fs.calls if (c.fn or "").endswith("IntoIterator::into_iter") and "cmap_sections" in fs.oname(c.args[0], 3)]
     rev = [c for c in fs.calls if re.search(r"Iterator::rev$|::reverse$|sort", c.fn or "")]
     ctx.ob(R, "sections-in-file-order", len(it) == 1 and not rev, "sections are processed in the order the parser returned them", fs.where(), what="sections are no longer processed in file order")
+    # 4b. the parser hands the sections over in file order: collected by an order-preserving nom collector and not rearranged
+    for fn in ("parser::cmap_parser::cmap_codespace_and_mappings", "parser::cmap_parser::cmap_stream", "parser::cmap_parser::parse"):
+        if not F.has_fn(fn):
+            continue
+        pb = F.fn(fn)
+        scope = F.with_closures(pb)
+        folds = [c for b2 in scope for c in b2.calls if re.search(r"nom::multi::fold_many", c.fn or "") and "CMapSection" in (c.full or "")]
+        rearr = [c for b2 in scope for c in b2.calls if re.search(r"::(sort\w*|reverse|swap|insert|extend|append|retain|iter_mut|dedup\w*|rev|drain|remove|truncate)$", c.fn or "")
+                 and "CMapSection" in (c.full or "")]
+        if fn.endswith("cmap_codespace_and_mappings"):
+            coll = [c for b2 in scope for c in b2.calls if re.search(r"nom::multi::(many0|many1|separated_list0|separated_list1)$", c.fn or "") and "CMapSection" in (c.full or "")]
+            ctx.ob(R, "sections-collected-in-order", len(coll) >= 1 and not folds and not rearr, "sections are collected by %s" % sorted(set((c.fn or "").rsplit("::", 1)[-1] for c in coll)), pb.where(),
+                   what="cmap_codespace_and_mappings no longer returns the sections in the order of the file (uses %s): a later definition that should override an earlier one is applied first"
+                        % sorted(set((c.fn or "").rsplit("::", 1)[-1] for c in folds + rearr)))
+        else:
+            ctx.ob(R, "sections-not-rearranged|%s" % fn.rsplit("::", 1)[-1], not folds and not rearr, "no rearrangement of the section list", pb.where(),
+                   what="%s rearranges the list of CMap sections (%s)" % (fn, sorted(set((c.fn or "").rsplit("::", 1)[-1] for c in folds + rearr))))
     # 5. one maximum code length
     consts = {}
     sc = F.fn("parser::cmap_parser::source_code")
